@@ -257,6 +257,71 @@ def r5_bool(prog, ctx):
                      key="bool-case:%s" % fname)
 
 
+def r5_lowering_helper(prog, ctx, rule="R5"):
+    """the helper both boolean accessors rely on really lowers every capital letter, and only those"""
+    if not prog.has_fn("toLowerCase"):
+        ctx.inconclusive(rule, "toLowerCase lowers every capital letter", "", "helper vanished")
+        return
+    f = prog.fn("toLowerCase")
+    ctx.touch(f)
+    cfg = f.cfg
+    inst = "toLowerCase lowers every capital letter"
+    lps = [x for x in f.walk() if x.k in ("WhileStmt", "ForStmt", "DoStmt")]
+    if len(lps) != 1:
+        ctx.inconclusive(rule, inst, f.where, "%d loops" % len(lps))
+        return
+    lp = lps[0]
+    from rules.C04 import _driven_loop, _deref_of
+    kind, v, why = _driven_loop(f, cfg, lp, cfg.loop_header(lp), lp.child("cond"))
+    if kind != "ok" or v is None:
+        ctx.inconclusive(rule, inst, lp.where, "scan over the string not recognised")
+        return
+    stores = [(lhs, rhs, st) for lhs, rhs, st, k2 in query.stores(f) if k2 == "=" and _deref_of(lhs, v) and st.within(lp)]
+    if not stores:
+        ctx.fail(rule, inst, lp.where, "no character of the string is ever changed", key="tolower-none")
+        return
+    verdicts = []
+    for lhs, rhs, st in stores:
+        r = rhs.strip()
+        uses_tolower = any(x.k == "CallExpr" and x.j.get("callee") in ("tolower", "__tolower") for x in r.walk()) or "__ctype_tolower_loc" in render(r)
+        lo, hi, exact = None, None, False
+        for lit in cfg.required_literals(cfg.block_of(st), start=cfg.loop_body_entry(lp)):
+            if lit.kind == "truth" and "_ISupper" in lit.atom and lit.pol:
+                exact = True
+            if lit.kind != "lt":
+                continue
+            if _deref_of(lit.rhs, v) and lit.lhs.const_value() is not None:
+                k = lit.lhs.const_value()
+                if lit.pol:
+                    lo = max(lo, k + 1) if lo is not None else k + 1
+                else:
+                    hi = min(hi, k) if hi is not None else k
+            elif _deref_of(lit.lhs, v) and lit.rhs.const_value() is not None:
+                k = lit.rhs.const_value()
+                if lit.pol:
+                    hi = min(hi, k - 1) if hi is not None else k - 1
+                else:
+                    lo = max(lo, k) if lo is not None else k
+        guarded = lo is not None or hi is not None
+        if uses_tolower and not guarded:
+            verdicts.append(("ok", st, "every character goes through tolower()"))
+        elif exact or (lo, hi) == (65, 90):
+            verdicts.append(("ok", st, "characters in ['A','Z'] are mapped"))
+        elif guarded and ((lo or 0) > 65 or (hi if hi is not None else 255) < 90):
+            missing = [chr(c) for c in range(65, 91) if (lo is not None and c < lo) or (hi is not None and c > hi)]
+            verdicts.append(("fail", st, "only characters in [%s,%s] are lowered: %s stay capital, so a spelling of a boolean word containing one of them "
+                             "(e.g. 'FALSE') is not recognised" % (repr(chr(lo)) if lo else "-", repr(chr(hi)) if hi is not None and hi < 256 else "-", missing[:4])))
+        else:
+            verdicts.append(("unknown", st, "mapping `%s` under [%s,%s] not understood" % (render(st)[:50], lo, hi)))
+    for kind2, st, why2 in verdicts:
+        if kind2 == "ok":
+            ctx.ok(rule, inst, st.where, why2)
+        elif kind2 == "fail":
+            ctx.fail(rule, inst, st.where, why2, key="tolower-range")
+        else:
+            ctx.inconclusive(rule, inst, st.where, why2)
+
+
 def r7_def_wrappers(prog, ctx):
     """the ...ValueDef wrappers hand the getter's verdict through: every return returns the variable that received the
     getter's result, unmodified, and the default is stored only for ECONF_NOKEY"""
@@ -386,6 +451,7 @@ def run(prog, ctx):
             else:
                 ctx.fail("R4", "%s: no-digits test" % g, anchor.where, "success without the end-pointer having moved", key="endptr:%s" % g)
     r5_bool(prog, ctx)
+    r5_lowering_helper(prog, ctx)
     # the typed public getters reach these through the macro: 8 + 8 Def wrappers
     pub = [x for x in prog.entry_points() if x.startswith("econf_get") and x.endswith("Value")
            and "get" + x[len("econf_get"):] + "Num" in conv.GETTERS]
